@@ -75,7 +75,13 @@ func (g *lrgen) line() string {
 	case 1:
 		return fmt.Sprintf(`<span title="%s">%s</span>`, strings.NewReplacer(`"`, "", "`", "").Replace(g.words(1+g.r.Intn(3))), g.words(1+g.r.Intn(2)))
 	case 2:
-		return fmt.Sprintf(`<i title='%s "%s"'>%s</i> %s`, rng.Pick(g.r, lrWide), rng.Pick(g.r, lrTwo), g.words(1), g.words(2))
+		after := g.words(2)
+		if after[0] == 0x85 || after[0] == 0xa0 {
+			// a byte 0x85 / 0xA0 behind a node on its line makes the parser reject the whole file (nonutf8.go: rejectedByteSpace;
+			// nuByteSpaceFile holds that dimension in small files): not at the front here, a file of many KiB would be lost
+			after = "x" + after
+		}
+		return fmt.Sprintf(`<i title='%s "%s"'>%s</i> %s`, rng.Pick(g.r, lrWide), rng.Pick(g.r, lrTwo), g.words(1), after)
 	case 3:
 		return "<!-- " + strings.ReplaceAll(g.words(1+g.r.Intn(4)), "--", "-") + " -->"
 	case 4:
